@@ -120,6 +120,34 @@ theorem linearizable_real_time_partial (n : Str) (o : Obj) (as : List TAct) (s' 
   have h0 := idle_inv n o hi hq ha
   exact ⟨(trun_wf n as _ s' tr h0 hr).2, trun_refines n as _ s' tr h0 hside hr⟩
 
+/-- **capacity at the level of calls (C01)**: after every schedule of threaded calls, live keys plus grants
+in progress never exceed the size the object was created with -/
+theorem capacity_threads (n : Str) (o : Obj) (as : List TAct) (s' : TSt) (tr : List Ev)
+    (hi : ObjInv o) (hq : o.q = []) (ha : o.acq = []) (hr : trun n ⟨o, []⟩ as = some (s', tr)) :
+    s'.o.keys.length + s'.o.acq.length ≤ o.size := by
+  have h0 := idle_inv n o hi hq ha
+  have hinv := (trun_wf n as _ s' tr h0 hr).1
+  have hsz := trun_size n as _ s' tr h0 hr
+  have := hinv.obj.conserve
+  have := hinv.obj.bound
+  simp at hsz
+  omega
+
+/-- **real-time order, explicitly**: in the trace of any schedule, every operation attributed to a thread
+is preceded by an invocation of that thread (nothing takes effect before the call) … -/
+theorem lin_after_invocation (n : Str) (o : Obj) (as : List TAct) (s' : TSt) (tr : List Ev)
+    (hi : ObjInv o) (hq : o.q = []) (ha : o.acq = []) (hr : trun n ⟨o, []⟩ as = some (s', tr))
+    (t : Tid) (p q : List Ev) (op : AOp) (h : tr = p ++ .lin t op :: q) : ∃ c, Ev.inv t c ∈ p :=
+  lin_after_inv n tr [] t (trun_wf n as _ s' tr (idle_inv n o hi hq ha) hr).2 (by simp [view]) p q op h
+
+/-- … and once a call has returned nothing more is attributed to its thread until the thread's next
+invocation (nothing takes effect after the call): a call that returned before another was invoked has
+all its operations first - the order of the operations respects the real-time order of the calls -/
+theorem no_lin_after_return (n : Str) (os : List (Tid × Call × List AOp)) (t : Tid) (ok : Bool) (es : List Ev)
+    (hw : wf n os (.ret t ok :: es) = true) (p q : List Ev) (op : AOp) (h : es = p ++ .lin t op :: q) :
+    ∃ c, Ev.inv t c ∈ p :=
+  no_lin_after_ret n os t ok es hw p q op h
+
 /-- the checker is not vacuous: it rejects a grant attributed to a call that has already returned, a
 result that contradicts the operation, and an operation of a call never invoked -/
 example : wf [120] [] [.inv 1 (.tryLock [107]), .ret 1 false, .lin 1 (.try [120] [107] true)] = false := by decide
